@@ -171,6 +171,16 @@ CLAIMS = {
              "capacity is written only by constructor/loaders and as capacity * expansion_rate. Tables loaded from foreign files are "
              "outside the claim.",
         design_ref="DESIGN.md section 4 C15"),
+    "C04": dict(
+        technique="three-point index-range lattice with assume-guarantee at calls; counter pairing; guard dominance; call-order rules",
+        text="THIN SLICE, claimed at the weakest level: decides (a) elements_added moves +1 per slot filled, -1 per slot emptied, 0 when "
+             "absent, reset with the arrays; (b) every index into the remainder array and the three bit vectors is in [0, size) on "
+             "every path (masked / mod size / range(size) / 32-bit-hash quotient / guarded location / inductive loop variable; every "
+             "call passes in-range index arguments); (c) _add is reached only under 'not contained'; (d) resize reads the hashes before "
+             "replacing the arrays and re-inserts all, merge re-inserts all. NOT decided - and this is the heart of the property: that "
+             "run/cluster shifting keeps the layout canonical for every neighbourhood shape, and termination (a throw-away probe does "
+             "show IndexError/non-termination in _remove_element for some add/remove histories; no static rule here sees that).",
+        design_ref="DESIGN.md section 4 C04"),
 }
 
 NA_DEFAULT = "check not built yet (build phase in progress; DESIGN.md section 4 gives the planned rule)"
